@@ -30,12 +30,18 @@ class Rule:
         self.sites = []          # [(loc, note)]
         self.violations = []
         self.control = control
+        self._seen = set()
 
     def ok(self, loc, note=''):
-        self.sites.append((loc, note))
+        if (loc, note) not in self._seen:
+            self._seen.add((loc, note))
+            self.sites.append((loc, note))
 
     def bad(self, key, loc, msg, **detail):
         """key: stable identifier of the failing instance (no line numbers)."""
+        if (loc, 'V:' + key) in self._seen:
+            return
+        self._seen.add((loc, 'V:' + key))
         self.sites.append((loc, 'VIOLATES: ' + msg))
         self.violations.append(Violation(self.id, key, loc, msg, detail))
 
@@ -229,12 +235,12 @@ def run_check(prop, tier, module, replay=None):
                        'detail': v.detail, 'tier': tier}, open(rp, 'w'), indent=1, default=str)
             print('%s: rule %s: %s [%s]' % (v.loc, v.rule, v.msg, v.key))
             print('VIOLATION property=%s replay=%s' % (prop, rp))
-        if broken:
-            for b in broken:
-                print('ANALYSIS-BROKEN property=%s %s' % (prop, b))
-            status = 2
-        elif viols:
+        for b in broken:
+            print('ANALYSIS-BROKEN property=%s %s' % (prop, b))
+        if viols:
             status = 1
+        elif broken:
+            status = 2
         write_evidence(ctx, prop, tier, viols, nknown, broken)
         nsites = sum(len(r.sites) for r in ctx.rules)
         print('%s [%s]: %d rules, %d instances, %d violations, %d known findings, %.1fs%s' % (
